@@ -13,22 +13,22 @@ open Sarpy.Spec.Opener
 /-- try the sixteen states of the four guard defects -/
 macro "find_flags" : tactic =>
   `(tactic| first
-    | exact ⟨⟨true, true, true, true⟩, fun v => by cases v <;> rfl⟩
-    | exact ⟨⟨false, false, false, false⟩, fun v => by cases v <;> rfl⟩
-    | exact ⟨⟨false, true, true, true⟩, fun v => by cases v <;> rfl⟩
-    | exact ⟨⟨true, false, true, true⟩, fun v => by cases v <;> rfl⟩
-    | exact ⟨⟨true, true, false, true⟩, fun v => by cases v <;> rfl⟩
-    | exact ⟨⟨true, true, true, false⟩, fun v => by cases v <;> rfl⟩
-    | exact ⟨⟨false, false, true, true⟩, fun v => by cases v <;> rfl⟩
-    | exact ⟨⟨false, true, false, true⟩, fun v => by cases v <;> rfl⟩
-    | exact ⟨⟨false, true, true, false⟩, fun v => by cases v <;> rfl⟩
-    | exact ⟨⟨true, false, false, true⟩, fun v => by cases v <;> rfl⟩
-    | exact ⟨⟨true, false, true, false⟩, fun v => by cases v <;> rfl⟩
-    | exact ⟨⟨true, true, false, false⟩, fun v => by cases v <;> rfl⟩
-    | exact ⟨⟨false, false, false, true⟩, fun v => by cases v <;> rfl⟩
-    | exact ⟨⟨false, false, true, false⟩, fun v => by cases v <;> rfl⟩
-    | exact ⟨⟨false, true, false, false⟩, fun v => by cases v <;> rfl⟩
-    | exact ⟨⟨true, false, false, false⟩, fun v => by cases v <;> rfl⟩)
+    | (refine ⟨⟨true, true, true, true⟩, fun v => ?_⟩; cases v <;> rfl)
+    | (refine ⟨⟨false, false, false, false⟩, fun v => ?_⟩; cases v <;> rfl)
+    | (refine ⟨⟨false, true, true, true⟩, fun v => ?_⟩; cases v <;> rfl)
+    | (refine ⟨⟨true, false, true, true⟩, fun v => ?_⟩; cases v <;> rfl)
+    | (refine ⟨⟨true, true, false, true⟩, fun v => ?_⟩; cases v <;> rfl)
+    | (refine ⟨⟨true, true, true, false⟩, fun v => ?_⟩; cases v <;> rfl)
+    | (refine ⟨⟨false, false, true, true⟩, fun v => ?_⟩; cases v <;> rfl)
+    | (refine ⟨⟨false, true, false, true⟩, fun v => ?_⟩; cases v <;> rfl)
+    | (refine ⟨⟨false, true, true, false⟩, fun v => ?_⟩; cases v <;> rfl)
+    | (refine ⟨⟨true, false, false, true⟩, fun v => ?_⟩; cases v <;> rfl)
+    | (refine ⟨⟨true, false, true, false⟩, fun v => ?_⟩; cases v <;> rfl)
+    | (refine ⟨⟨true, true, false, false⟩, fun v => ?_⟩; cases v <;> rfl)
+    | (refine ⟨⟨false, false, false, true⟩, fun v => ?_⟩; cases v <;> rfl)
+    | (refine ⟨⟨false, false, true, false⟩, fun v => ?_⟩; cases v <;> rfl)
+    | (refine ⟨⟨false, true, false, false⟩, fun v => ?_⟩; cases v <;> rfl)
+    | (refine ⟨⟨true, false, false, false⟩, fun v => ?_⟩; cases v <;> rfl))
 
 /-- the regenerated guard tables are the specified ones, in one of the sixteen states of the four guard defects -/
 theorem gen_tab_eq : ∃ f : TabFlags, ∀ v : Vendor, Gen.Openers.tab v = tab f v := by find_flags
